@@ -20,7 +20,7 @@ fn expected_ratio(l: usize, n: usize, m: usize) -> f32 {
 fn check_case(c: &SeqCase, obs: &mut Obs) -> Verdict {
     // Patience is excluded by the property; alg is mapped onto {Myers, Lcs}
     let mut c = c.clone();
-    c.alg = if c.alg % 2 == 0 { 0 } else { 2 };
+    c.alg = if c.alg == 0 { 0 } else { 2 };
     c.k = None;
     let os = c.old_slice();
     let ns = c.new_slice();
@@ -90,6 +90,16 @@ fn strat(tier: Tier) -> BoxedStrategy<SeqCase> {
             c.alg = 0;
             c
         }),
+        // two sorted "pages" of consecutive values that overlap in a few boundary records
+        1 => (0u32..50, 100usize..300, 100usize..300, 1usize..60, 1usize..4, 0u8..3).prop_map(|(start, n, m, overlap, rep, mode)| {
+            let a: Vec<u32> = (0..n).map(|i| start + (i / rep) as u32).collect();
+            let last = *a.last().unwrap();
+            let first_b = last.saturating_sub((overlap / rep) as u32);
+            let b: Vec<u32> = (0..m).map(|i| first_b + (i / rep) as u32).collect();
+            let mut c = SeqCase::full(0, a, b);
+            c.mode = mode;
+            c
+        }),
         // Myers with a LARGE edit distance (deep searches: D in the hundreds)
         1 => (2u32..8, proptest::collection::vec(0u32..64, 150..=tier.pick(400usize, 900)), proptest::collection::vec(0u32..64, 150..=tier.pick(400usize, 900)), 0u8..3).prop_map(|(k, a, b, mode)| {
             let mut c = SeqCase::full(0, a.into_iter().map(|x| x % k).collect(), b.into_iter().map(|x| x % k).collect());
@@ -113,6 +123,56 @@ fn enum_small(tier: Tier, f: &mut dyn FnMut(SeqCase) -> bool) {
     }
 }
 
+/// fixed large cases: matching runs of thousands of items, big LCS tables
+fn enum_large(tier: Tier, f: &mut dyn FnMut(SeqCase) -> bool) {
+    let mut cases: Vec<SeqCase> = vec![];
+    for run in [4097usize, 9000] {
+        // a long block of identical items between differing ends
+        let mut a = vec![1u32];
+        a.extend(std::iter::repeat(0).take(run));
+        a.push(2);
+        let mut b = vec![3u32];
+        b.extend(std::iter::repeat(0).take(run));
+        b.push(4);
+        cases.push(SeqCase::full(0, a, b));
+        // the same with a period-2 block and one item missing in the middle
+        let a: Vec<u32> = std::iter::once(7).chain((0..run).map(|i| (i % 2) as u32)).chain(std::iter::once(8)).collect();
+        let mut b: Vec<u32> = std::iter::once(9).chain((0..run).map(|i| (i % 2) as u32)).chain(std::iter::once(6)).collect();
+        b.remove(run / 2);
+        cases.push(SeqCase::full(0, a, b));
+    }
+    // long distinct near-identical inputs
+    let a: Vec<u32> = (0..6000).collect();
+    let mut b = a.clone();
+    b[10] = 100_000;
+    b.remove(3000);
+    b.insert(5000, 100_001);
+    cases.push(SeqCase::full(0, a, b));
+    // LCS through the Algorithm dispatch with more than 2^20 table cells: repeated items around
+    // unique items that cross (where anchoring on unique items would not be minimal)
+    // head: a unique item X crossing a run of repeated items ([X,0,0,0] vs [0,0,0,X])
+    let mut a = vec![200u32, 0, 0, 0];
+    let mut b = vec![0u32, 0, 0, 200];
+    a.extend(lcg_seq(31, 1060, 3).into_iter().map(|x| x + 1));
+    b.extend(lcg_seq(32, 1050, 3).into_iter().map(|x| x + 1));
+    for (i, v) in [(50usize, 100u32), (400, 101), (900, 102)] {
+        a.insert(i, v);
+        b.insert(1000 - i, v);
+    }
+    let mut c = SeqCase::full(2, a, b);
+    c.mode = 0;
+    if tier == Tier::Thorough {
+        cases.push(c.clone());
+        c.mode = 1;
+    }
+    cases.push(c);
+    for c in cases {
+        if !f(c) {
+            return;
+        }
+    }
+}
+
 impl Prop for C03 {
     type Case = SeqCase;
     const ID: &'static str = "C03";
@@ -132,7 +192,15 @@ impl Prop for C03 {
                     gen: enum_small,
                 },
             },
-            Stage { name: "random", kind: StageKind::Random { strategy: strat, cases: tier.pick(400_000, 2_000_000) } },
+            Stage {
+                name: "large",
+                kind: StageKind::Enumerate {
+                    scope: "fixed large cases: blocks of 4097 and 9000 identical / period-2 items between differing ends (Myers), 6000 distinct near-identical items, LCS via the Algorithm dispatch on 1063 x 1053 items (1.1 M table cells) with crossing unique items".into(),
+                    exhaustive: true,
+                    gen: enum_large,
+                },
+            },
+            Stage { name: "random", kind: StageKind::Random { strategy: strat, cases: tier.pick(400_000, 1_200_000) } },
         ]
     }
     fn check(case: &SeqCase, obs: &mut Obs) -> Verdict {
